@@ -134,7 +134,16 @@ func rawName(s string) []byte {
 func isDigit(b byte) bool { return b >= '0' && b <= '9' }
 
 // pathMiddlebox returns a DgramHook implementing the path between one client address and the server.
-func pathMiddlebox(r *Run, p dnsPath, serverAddr string) func(seq int) bool {
+// c11transient is a passing fault of the path during the handshake: the at-th query towards the server (counted
+// from 0) is answered with SERVFAIL by the path, or it and the four queries after it are lost (an original and
+// its retransmissions, the handshake being sequential).
+type c11transient struct {
+	kind string // servfail-once, loss-burst
+	at   int
+	n    int
+}
+
+func pathMiddlebox(r *Run, p dnsPath, serverAddr string, tr *c11transient) func(seq int) bool {
 	rnd := func(n int) int { return r.Ch.Pick(n, "path-rnd") }
 	return func(seq int) bool {
 		d := r.Net.PeekDgram(seq)
@@ -153,6 +162,23 @@ func pathMiddlebox(r *Run, p dnsPath, serverAddr string) func(seq int) bool {
 				return true
 			}
 			q := &msg.Question[0]
+			if tr != nil {
+				n := tr.n
+				tr.n++
+				if tr.kind == "servfail-once" && n == tr.at {
+					rep := new(mdns.Msg)
+					rep.SetReply(msg)
+					rep.Rcode = mdns.RcodeServerFailure
+					out, _ := rep.Pack()
+					r.Net.Inject("udp", d.To, d.From, out)
+					r.Count("path_transient_servfail")
+					return true
+				}
+				if tr.kind == "loss-burst" && n >= tr.at && n < tr.at+5 {
+					r.Count("path_transient_loss")
+					return true
+				}
+			}
 			// record types the path does not carry are answered by the path itself
 			if p.Types != nil && !p.Types[q.Qtype] {
 				rep := new(mdns.Msg)
@@ -299,7 +325,14 @@ func scenarioC11(r *Run) {
 		hsErr = dc.Handshake()
 		hsDone = true
 	}()
-	pol := &NetPolicy{Whole: true, LossBudget: loss, MinGap: 12, DgramHook: pathMiddlebox(r, path, addr)}
+	// one handshake in three meets a passing fault at one of its steps: the outcome may be a failure, or a
+	// success - and then what was settled on has to work all the same
+	var tr *c11transient
+	if c.Chance(1, 3, "transient-fault") {
+		tr = &c11transient{kind: []string{"servfail-once", "loss-burst"}[c.Pick(2, "transient-kind")], at: c.Pick(40, "transient-at")}
+		r.Info["transient_fault"] = fmt.Sprintf("%s at query %d", tr.kind, tr.at)
+	}
+	pol := &NetPolicy{Whole: true, LossBudget: loss, MinGap: 12, DgramHook: pathMiddlebox(r, path, addr, tr)}
 	t0 := r.SimElapsed()
 	out := r.Drive(pol, func() bool { return hsDone }, nil, 5*time.Minute, 30*time.Minute)
 	if out == Aborted {
@@ -365,7 +398,7 @@ func scenarioC11(r *Run) {
 		ss, sr, _, _, _, _ := ps.Snapshot()
 		return len(pc.Script) == 0 && len(ps.Script) == 0 && pc.Idle() && ps.Idle() && cr == ss && sr == cs && cs == int64(na) && ss == int64(ns)
 	}
-	pol2 := &NetPolicy{Whole: true, DgramHook: pathMiddlebox(r, path, addr)}
+	pol2 := &NetPolicy{Whole: true, DgramHook: pathMiddlebox(r, path, addr, nil)}
 	out = r.Drive(pol2, done, extra, 3*time.Minute, 40*time.Minute)
 	if out == Aborted {
 		if r.Viol != nil && r.Viol.Rule == "stream-integrity" {
